@@ -46,7 +46,7 @@ class Gen:
         from numba_scfg.core.datastructures import basic_block as bb
         from numba_scfg.core.datastructures.scfg import SCFG, NameGenerator
         self.bb, self.SCFG, self.NameGenerator = bb, SCFG, NameGenerator
-        self.plain = [bb.BasicBlock, bb.PythonBytecodeBlock, bb.SyntheticBlock, bb.SyntheticExit, bb.SyntheticReturn,
+        self.plain = [bb.BasicBlock, bb.PythonBytecodeBlock, bb.PythonASTBlock, bb.SyntheticBlock, bb.SyntheticExit, bb.SyntheticReturn,
                       bb.SyntheticTail, bb.SyntheticFill, bb.SyntheticAssignment]
         self.branch = [bb.SyntheticBranch, bb.SyntheticHead, bb.SyntheticExitingLatch, bb.SyntheticExitBranch]
 
@@ -84,6 +84,8 @@ class Gen:
         kw = {}
         if cls is self.bb.PythonBytecodeBlock:
             kw = dict(begin=r.randint(0, 10) * 2, end=r.randint(0, 10) * 2)
+        if cls is self.bb.PythonASTBlock:
+            kw = dict(begin=r.randint(0, 10) * 2, end=r.randint(0, 10) * 2, tree=[])
         if cls is self.bb.SyntheticAssignment:
             kw = dict(variable_assignment={'v%d' % r.randint(0, 2): r.randint(0, 3)})
         return cls(name=name, _jump_targets=jt, backedges=be, **kw)
@@ -107,7 +109,7 @@ class Gen:
         if k == 'block':
             return self.block()
         if k == 'cls':
-            return r.choice(self.plain[2:7] + self.branch[:1] + [self.bb.BasicBlock])
+            return r.choice(self.plain[3:8] + self.branch[:1] + [self.bb.BasicBlock])
         if k == 'seq':
             return [self.value(ty[1], ctx) for _ in range(r.randint(0, 3))]
         if k == 'set':
